@@ -798,15 +798,31 @@ pub fn run(c: &mut Ctx) {
     let fam = "small-rdata";
     let types: Vec<u16> = (1..=110u16).chain([249, 250, 255, 256, 257, 32768, 32769, 65280]).filter(|t| w::layout(*t).is_some() || *t == 41).collect();
     let per_type = 14 * 5;
-    let total = (types.len() * per_type) as u64;
+    // ... and well-formed records whose type bitmap is the last thing in the message, with windows of one to three octets: a
+    // lookup for a type beyond the window's last octet must not read on (behind the window the allocation ends)
+    let mut tails: Vec<(u16, Vec<u8>)> = Vec::new();
+    for bm in [vec![0u8, 1, 0x40], vec![0, 2, 0x40, 0x01], vec![0, 3, 0, 0, 0x08], vec![0, 1, 0x40, 1, 1, 0x40], vec![255, 1, 0x01]] {
+        let mut nsec = vec![0u8];
+        nsec.extend_from_slice(&bm);
+        tails.push((47, nsec));
+        let mut nsec3 = vec![1u8, 0, 0, 0, 0, 1, 0xAA];
+        nsec3.extend_from_slice(&bm);
+        tails.push((50, nsec3));
+        let mut csync = vec![0u8, 0, 0, 7, 0, 3];
+        csync.extend_from_slice(&bm);
+        tails.push((62, csync));
+    }
+    let total = (types.len() * per_type + tails.len()) as u64;
     for idx in c.cases(fam, total) {
         if c.out_of_time() {
             break;
         }
         let mut rng = c.case_rng(fam, idx);
-        let t = types[idx as usize / per_type];
+        let tail = (idx as usize).checked_sub(types.len() * per_type);
+        let t = match tail { Some(k) => tails[k].0, None => types[idx as usize / per_type] };
         let len = (idx as usize % per_type) / 5;
         let rd: Vec<u8> = match idx % 5 {
+            _ if tail.is_some() => tails[tail.unwrap()].1.clone(),
             0 => vec![0; len],
             1 => vec![0xff; len],
             2 => vec![1; len],
